@@ -274,9 +274,11 @@ def prepped (ep : EP) (m : Member) : Bool := preppedB ep m.part m.obj.isEmpty
     `__loadxmlparts`: it inserts missing `xmlns:` declarations into the root element's start tag).  `fix` is its
     effect on what matters of the member; it must leave the DOCTYPE facts as they are — a transformer that deletes
     or rewrites the document type declaration would hide an entity declaration from the defused parser.
-    Stated here as a hypothesis of the refusal theorems; tied to the code by harness/c13.py: every member text of
-    the fault matrix (all injection kinds × all prolog layouts) is fed to the real `__fixXmlPart` and everything
-    before the root element must come back character for character. -/
+    A parameter of the refusal theorems; DISCHARGED for the character-level model of `__fixXmlPart`
+    (OdfModel.LoadSax.fixXmlPart) in Props/C13Prep.lean (`prepOfFix`, from Props/C05.lean `fix_prolog_untouched`).
+    Tied to the code by harness/c13.py: every member text of the fault matrix (all injection kinds × all prolog
+    layouts × all prolog shapes) is fed to the real `__fixXmlPart` and everything before the root element must
+    come back character for character; and by the `fixxml` correspondence of harness/c05.py. -/
 structure Prep where
   fix : XmlMember → XmlMember
   preserves : ∀ x, fix x = x
